@@ -83,7 +83,7 @@ theorem C19_queue_durable (effs : List EffAt) (hv : variantOf effs = some .fixed
   · exact e
 
 /-- non-vacuous: acknowledged, a failed copy attempt, a crash – the row is there -/
-example : let s := run .fixed init [.srcRecv 1, .qSet 1 true, .memAdd 1 true, .cpStart 1, .cpXfer 1 .destErr, .cpEnd 1, .restart]
+example : let s := run .fixed init [.srcRecv 1, .qSet 1 true, .memAdd 1 true, .cpStart 1, .cpXfer 1 (.destErr .canceled), .cpEnd 1, .restart]
     1 ∈ s.acked ∧ 1 ∉ dstIds s ∧ 1 ∈ s.rows := by decide
 
 /-- **a row leaves the queue only after the destination acknowledged the blob**: whatever the next
@@ -156,6 +156,24 @@ example : let s := run .fixed init [.srcRecv 1, .qSet 1 true, .memAdd 1 true, .c
       .cpEnd 1, .cpStart 1, .cpXfer 1 .ok]
     s.dst = [(1, 1)] := by decide
 
+/-- **no error kind is "nothing to copy"**: whatever the kind of the error (not-exist, a wrapped
+ENOENT, cancellation, EOF, …) a failed source fetch, a failed read or a failed destination write
+never lets `copyBlob` return nil and never changes the destination – so (by `step`) the copy ends in
+phase `failed`, `qDel` is not enabled and the row and the pending entry stay. -/
+theorem C19_failed_transfer_keeps_row (src : List Nat) (dst : List (Nat × Nat)) (i : Nat) (k : ErrKind) :
+    xfer src dst i (.fetchErr k) = (dst, false) ∧ xfer src dst i (.shortRead k) = (dst, false) ∧
+    xfer src dst i .readEmpty = (dst, false) ∧ xfer src dst i .fetchSize = (dst, false) ∧
+    xfer src dst i (.destErr k) = (dst, false) ∧ xfer src dst i .corrupt = (dst, false) := by
+  by_cases h : i ∈ src <;> simp [xfer, h, fetched, hashMatches]
+
+/-- the same on a whole copy attempt: for every error kind, after `cpStart; cpXfer (fetchErr k); cpEnd`
+(the deferred `setError(err)`) the row, the pending entry and the destination are as before -/
+theorem C19_fetch_error_copy_is_noop (k : ErrKind) :
+    let s := run .fixed init [.srcRecv 1, .qSet 1 true, .memAdd 1 true]
+    let s' := run .fixed s [.cpStart 1, .cpXfer 1 (.fetchErr k), .qDel 1 true, .cpEnd 1]
+    s'.rows = [1] ∧ s'.need = [1] ∧ s'.dst = [] ∧ s'.copying = [] ∧ s'.cps = [] := by
+  cases k <;> decide
+
 /-! ## eventual delivery -/
 
 /-- one failure-free copy strictly decreases the pending measure `need.length` -/
@@ -194,7 +212,7 @@ theorem C19_eventual (effs : List EffAt) (hv : variantOf effs = some .fixed) (s 
 /-- non-vacuous: two acknowledged uploads, one copy parked between transfer and row deletion, one
 failed copy, one upload in flight – recovery delivers both acknowledged blobs -/
 example : let s := run .fixed init [.srcRecv 1, .qSet 1 true, .memAdd 1 true, .srcRecv 2, .qSet 2 true, .memAdd 2 true,
-      .cpStart 1, .cpXfer 1 .ok, .cpStart 2, .cpXfer 2 .shortRead, .srcRecv 3]
+      .cpStart 1, .cpXfer 1 .ok, .cpStart 2, .cpXfer 2 (.shortRead .eof), .srcRecv 3]
     s.acked = [1, 2] ∧ dstIds s = [1] ∧ dstIds (recover .fixed s) = [1, 2] := by decide
 
 /-- eventual delivery at the strength of "every blob received by the source store", under the guard
